@@ -67,7 +67,32 @@ def run(ctx):
                 if bad:
                     st["ok"] += 1
                     ctx.violation(bad["sig"], bad["detail"], rp)
+    # histories: every admitted dialogue (a sample of them in the quick tier) once more - login, close while the device prints a
+    # late message and redraws its prompt, open the same driver again: the second login is a login like the first
+    adm = [(i, s) for i, s in enumerate(scns) if s["class"] == "ok"]
+    if not thorough:
+        adm = adm[::max(1, len(adm) // 40)]
+    hist = [dict(s, history="reopen", idx=i) for i, s in adm]
+    resh = ctx.run_harness("c10", hist, timeout=3000)
+    if len(resh) != len(hist):
+        raise ToolError("c10 answered %d of %d histories; stderr:\n%s" % (len(resh), len(hist), ctx.last_stderr[-3000:]))
+    for h, rr in zip(hist, resh):
+        ctx.count()
+        ctx.nontriv("reopen/%s" % h["idx"])
+        if rr.get("sig") == "TOOL":
+            raise ToolError("history %s: %s" % (h["idx"], rr["detail"]))
+        if not rr["ok"]:
+            st = confirmed.setdefault(rr["sig"], {"ok": 0, "tries": 0})
+            if st["ok"]:
+                ctx.violation(rr["sig"], rr["detail"], h)
+            elif st["tries"] < 4:
+                st["tries"] += 1
+                bad = confirm(ctx, "c10", h)
+                if bad:
+                    st["ok"] += 1
+                    ctx.violation(bad["sig"], bad["detail"], h)
+    ctx.notes["reopen_histories"] = len(hist)
     ctx.exhaustive = True
-    ctx.traces_validated = len(res)
+    ctx.traces_validated = len(res) + len(resh)
     ctx.sample({"scenario": scns[len(scns) // 2]})
     ctx.sample({"scenario": scns[17]})
